@@ -57,6 +57,9 @@ fn emit_graph(out: &mut Vec<String>, r: &mut Rng, n: u64, es: &[E]) {
     out.push(format!("algo scc {} {}", n, g));
     out.push(format!("algo topo {} {}", n, g));
     out.push(format!("algo kruskal {} {}", n, g));
+    out.push(format!("algo artic {} {}", n, g));
+    out.push(format!("algo bridges {} {}", n, g));
+    out.push(format!("algo kcore {} {}", n, g));
     // a source that is not a node once in a while (and always for the empty graph)
     let sources: Vec<u64> = if n == 0 { vec![0] } else { (0..n).collect() };
     for &s in &sources {
@@ -311,6 +314,25 @@ pub fn run(args: &[&str]) -> String {
                     if perm && es.iter().all(|(u, v, _)| pos[u] < pos[v]) { "valid".into() } else { "invalid".into() }
                 }
             },
+            // structure.rs: the graph as a simple undirected graph (adjacency sets)
+            ("artic", None) => {
+                let mut v: Vec<u64> = grafeo_adapters::plugins::algorithms::articulation_points(&build(n, &es, false)).iter().map(|x| x.0).collect();
+                v.sort_unstable();
+                if v.is_empty() { "none".into() } else { join(&v) }
+            }
+            ("bridges", None) => {
+                let mut v: Vec<(u64, u64)> = grafeo_adapters::plugins::algorithms::bridges(&build(n, &es, false))
+                    .iter()
+                    .map(|(a, b)| if a.0 <= b.0 { (a.0, b.0) } else { (b.0, a.0) })
+                    .collect();
+                v.sort_unstable();
+                if v.is_empty() { "none".into() } else { v.iter().map(|(a, b)| format!("{}-{}", a, b)).collect::<Vec<_>>().join(",") }
+            }
+            ("kcore", None) => {
+                let r = grafeo_adapters::plugins::algorithms::kcore_decomposition(&build(n, &es, false));
+                let m: BTreeMap<u64, usize> = r.core_numbers.iter().map(|(k, v)| (k.0, *v)).collect();
+                if m.is_empty() { "none".into() } else { format!("{}|{}", m.iter().map(|(k, v)| format!("{}:{}", k, v)).collect::<Vec<_>>().join(","), r.max_core) }
+            }
             ("kruskal", None) => {
                 let r = kruskal(&build(n, &es, false), w);
                 let sum: f64 = r.edges.iter().map(|e| e.3).sum();
